@@ -580,7 +580,8 @@ where
             state_machine,
             max_drain,
         ));
-        let read_handle = crate::api::StandaloneReadHandle::new(Some(read_tx), cmd_tx.clone());
+        let read_handle = crate::api::StandaloneReadHandle::new(Some(read_tx), cmd_tx.clone())
+            .with_client_override(node_config_arc.raft.read_consistency.allow_client_override);
 
         let node = Node::<RaftTypeConfig<SE, SM>> {
             node_id,
